@@ -9,6 +9,7 @@ import (
 	"os"
 
 	"github.com/coredhcp/coredhcp/zzverif/allocsim"
+	"github.com/coredhcp/coredhcp/zzverif/netsim"
 	"github.com/coredhcp/coredhcp/zzverif/report"
 	"github.com/coredhcp/coredhcp/zzverif/simrt"
 )
@@ -22,6 +23,7 @@ func main() {
 	replay := flag.String("replay", "", "replay file (JSON with a tape)")
 	known := flag.Bool("known", false, "enable known-finding trigger generators")
 	trace := flag.Bool("trace", false, "record a full trace")
+	scenario := flag.String("scenario", "", "netsim scenario preset")
 	full := flag.Bool("full", false, "include sample and tape in every summary")
 	flag.Parse()
 	enc := json.NewEncoder(os.Stdout)
@@ -50,6 +52,30 @@ func main() {
 			sum.Index = i
 			enc.Encode(sum)
 		}
+	case "netsim":
+		if *replay != "" {
+			var rf report.ReplayFile
+			b, err := os.ReadFile(*replay)
+			if err != nil {
+				fmt.Fprintln(os.Stderr, err)
+				os.Exit(2)
+			}
+			if err := json.Unmarshal(b, &rf); err != nil {
+				fmt.Fprintln(os.Stderr, err)
+				os.Exit(2)
+			}
+			r := netsim.Run(netsim.Options{Prop: rf.Property, Scenario: rf.Scenario, Seed: rf.Seed, Replay: rf.Tape, Known: *known || rf.Known, Trace: *trace, Full: true})
+			enc.Encode(r)
+			return
+		}
+		if *runs != 1 {
+			fmt.Fprintln(os.Stderr, "netsim executes one run per process (plugins keep package-level state)")
+			os.Exit(2)
+		}
+		s := simrt.Mix(*seed, uint64(*first), 0x4e75)
+		r := netsim.Run(netsim.Options{Prop: *prop, Scenario: *scenario, Seed: s, Known: *known, Trace: *trace, Full: *full})
+		r.Index = *first
+		enc.Encode(r)
 	default:
 		fmt.Fprintln(os.Stderr, "unknown engine", *engine)
 		os.Exit(2)
